@@ -5,7 +5,7 @@ applied to the ground-truth hostname the generator embedded.
 """
 import itertools
 
-from vf.monitor import Probes
+from vf.monitor import Probes, structure_digest
 from vf.ref.psl import PSL
 
 SHARDS = {"quick": 4, "thorough": 16}
@@ -20,7 +20,7 @@ RULE = ("(a) every bundled rule taken as a host, with 1-2 extra labels, wildcard
 ASSUMPTIONS = ["reference: publicsuffix.org algorithm by linear scan, exception rule wins, longest match, wildcard = exactly one label, no match => no suffix",
                "bundled rule and TLD lists (ural.tld_data) used as data only", "hostnames with empty labels are not generated"]
 FLOORS = ["ref-normal", "ref-wildcard", "ref-exception", "ref-none", "bundled-wildcard-with-explicit-sibling", "synthetic-two-exceptions-one-parent",
-          "form-upper", "form-trailing-dot", "form-url", "tld-punycode", "tld-upper", "bare-suffix"]
+          "form-upper", "form-trailing-dot", "form-url", "tld-punycode", "tld-upper", "bare-suffix", "shared-trie-digest-compared"]
 PROBE_FLOORS = ["SuffixTrie._SuffixTrie__walk"]
 
 
@@ -159,6 +159,8 @@ def run(ctx):
     pr.watch("ural.classes.suffix_trie:SuffixTrie.add", want_args=False)
     pr.start()
     rng = ctx.rng
+    shared_root = getattr(tld.SUFFIX_TRIE, "_SuffixTrie__root", None)
+    before = structure_digest(shared_root) if shared_root is not None else None
     try:
         rules = list(data.PUBLIC_SUFFIXES) + list(data.PRIVATE_SUFFIXES)
         ref = PSL(rules)
@@ -291,6 +293,13 @@ def run(ctx):
                     judge(ctx, fns, sp, h, exp, "bundled", {"host": sp})
                     ctx.nontrivial(("b", sp))
                 ctx.cls("random-real-labels")
+        # queries must not mutate the module-level trie (answers would depend on history)
+        if before is not None:
+            after = structure_digest(shared_root)
+            ctx.count("shared-trie-digest-compared")
+            ctx.notes["suffix_trie_digest"] = before
+            if after != before:
+                ctx.viol("C08:shared-state-mutated-by-queries", {"host": "<whole workload>"}, {"before": before, "after": after})
     finally:
         pr.stop()
     return {"probes": pr.report()}
